@@ -265,11 +265,16 @@ def is_life(i):
     return i[0] in ("remove", "rekey", "init")
 
 
+def closes_blocks(i):
+    """re-key is kept outside buffered blocks (outside the property's statement); remove/init/open are not"""
+    return i[0] == "rekey"
+
+
 def random_blocks(rng, items, live):
     """Insert properly nested enter/exit markers (and set_buffer_capacity) around runs without lifecycle items."""
     out, depth = [], 0
     for it in items:
-        if is_life(it):
+        if closes_blocks(it):
             while depth:
                 out.append(["exit"])
                 depth -= 1
@@ -308,6 +313,19 @@ GOLDEN = [
     # update() keeps a value that compares == (witness of C05_doc_faithful_typed_refuted; Python-equal, no violation)
     {"cap0": DEFAULT_CAP, "threads": True, "label": "golden-typed", "prog": [
         ["open", 0, 1], ["op", 0, [], ["set", "x", 1]], ["op", 0, [], ["update", {"x": True}]], ["op", 0, [], ["get"]]]},
+    # remove + re-init inside one block (seeded demo C05-3): fresh job, the document must start afresh
+    {"cap0": DEFAULT_CAP, "threads": True, "label": "golden-remove-in-block", "prog": [
+        ["open", 0, 1], ["open", 1, 2], ["init", 0], ["enter", None], ["op", 0, [], ["set", "stale", {"n": [1, 2, 3]}]],
+        ["op", 1, [], ["set", "o", 1]], ["op", 0, [], ["get"]], ["remove", 0], ["init", 0], ["op", 0, [], ["get"]],
+        ["op", 0, [], ["setdefault", "fresh", True]], ["op", 0, [], ["get"]], ["exit"], ["op", 0, [], ["get"]],
+        ["open", 2, 1], ["op", 2, [], ["get"]], ["op", 1, [], ["get"]]]},
+    {"cap0": DEFAULT_CAP, "threads": True, "label": "golden-remove-in-block-reopen", "prog": [
+        ["open", 0, 1], ["enter", 64], ["op", 0, [], ["set", "stale", 1]], ["remove", 0], ["open", 1, 1],
+        ["op", 1, [], ["get"]], ["op", 1, [], ["set", "fresh", 2]], ["exit"], ["op", 1, [], ["get"]]]},
+    # the same when the document file already existed: BufferedError on exit, the new data is dropped (known finding 3)
+    {"cap0": DEFAULT_CAP, "threads": True, "label": "golden-remove-in-block-existing-file", "prog": [
+        ["open", 0, 1], ["op", 0, [], ["set", "old", 1]], ["enter", None], ["op", 0, [], ["set", "stale", 2]], ["remove", 0],
+        ["op", 0, [], ["get"]], ["op", 0, [], ["set", "fresh", 3]], ["exit"], ["op", 0, [], ["get"]]]},
     # None cannot replace a container through update()/reset()/reload (known finding 2)
     {"cap0": DEFAULT_CAP, "threads": True, "label": "golden-none-over-container", "prog": [
         ["open", 0, 1], ["op", 0, [], ["set", "c", {"x": 1}]], ["op", 0, [], ["update", {"c": None}]], ["op", 0, [], ["get"]]]},
@@ -374,6 +392,9 @@ def gen_inputs(tier, rng):
         add(random_blocks(rng, items, live), "sub-blocks", thr, cap0=rng.choice([DEFAULT_CAP, DEFAULT_CAP, 0, 50, 300]))
         if multi:
             add(random_blocks(rng, nolife, everyone), "sub-blocks-shared", thr)
+        if any(i[0] == "remove" for i in items) and not any(i[0] == "rekey" for i in items):
+            # remove / init / re-open inside one block
+            add(wrap_all(items, rng.choice([None, None, 0, 40, 200]), live), "buffered-remove", thr)
     if tier != "quick":
         for prog in exhaustive(3):
             add(prog, "exhaustive<=3")
@@ -608,10 +629,10 @@ def run_case(desc):
                     elif k == "enter":
                         cm = signac.buffered() if it[1] is None else signac.buffered(it[1])
                         cm.__enter__()
-                        stack.append(cm)
                     elif k == "exit":
-                        if stack:
-                            stack.pop().__exit__(None, None, None)
+                        # `with` blocks nest on one class-level context object; its counter is the depth
+                        if JD._buffer_context._count > 0:
+                            JD._buffer_context.__exit__(None, None, None)
                     elif k == "setcap":
                         signac.set_buffer_capacity(it[1])
                     # a returned nested collection is converted without going through its (loading) accessors
@@ -625,9 +646,9 @@ def run_case(desc):
                 o["ret"] = ret
                 obs.append(o)
         finally:
-            while stack:
+            while JD._buffer_context._count > 0:
                 try:
-                    stack.pop().__exit__(None, None, None)
+                    JD._buffer_context.__exit__(None, None, None)
                 except Exception:  # noqa: BLE001
                     pass
             _reset_backend(signac, DEFAULT_CAP)
